@@ -3067,7 +3067,9 @@ func (h *ResponseHeader) parseHeaders(buf []byte) (int, error) {
 				continue
 			}
 			if caseInsensitiveCompare(s.key, strConnection) {
-				if bytes.Equal(s.value, strClose) {
+				// Connection options are case-insensitive tokens in a
+				// comma-separated list.
+				if hasHeaderValue(s.value, strClose) {
 					h.connectionClose = true
 				} else {
 					h.connectionClose = false
@@ -3258,7 +3260,9 @@ func (h *RequestHeader) parseHeaders(buf []byte, blockEnd int) (int, error) {
 				continue
 			}
 			if caseInsensitiveCompare(s.key, strConnection) {
-				if bytes.Equal(s.value, strClose) {
+				// Connection options are case-insensitive tokens in a
+				// comma-separated list.
+				if hasHeaderValue(s.value, strClose) {
 					h.connectionClose = true
 				} else {
 					h.connectionClose = false
